@@ -62,6 +62,10 @@ CLAIMS = {
     text="Narrow claim: on every metadata block that the library's own macros produce (23 metadata macros expanded alone, the complete blocks of 41 macro-generated ports) and on hand-made blocks for the corner cases the statement names (values containing ':' and '=', repeated keys, entries without value, empty value, no leading ':'), the iterator yields in order exactly the (key, value) pairs the block spells; find() and operator[] range over the container and answer with the first entry whose key compares equal. Not decided: arbitrary byte strings as keys and values, MetaContainer::length.",
     note="Trusted: clang AST, sa/fdeval.py, witness/meta_matrix.cpp and witness/sugar_matrix.cpp. The evaluation covers the listed blocks only.",
     ref="DESIGN.md 2 C17"),
+ "C15": dict(cat="other", tech="writer/reader agreement on the argument roles of the undo event (AST), finite-domain evaluation of the seek and record bookkeeping over all positions/sizes/distances of a small history (std::deque operations modelled), evaluation of the merge-window test",
+    text="Narrow claim: rewind/replay/mergeEvent take address, old and new value from the argument positions at which the parameter macros put them (C14 R14d) with the matching single type tag; seekHistory rewinds newest first / replays oldest first exactly the events up to the destination clamped to [0,size]; recordEvent drops the undone tail, appends unless merged, and caps the history at max_history_size (= 20) by dropping the oldest; mergeEvent scans newest first, stops at events more than 2 s old and merges on equal address. Not decided: the values carried over whole histories, the wall-clock behaviour.",
+    note="Trusted: clang AST, sa/fdeval.py; std::deque assumed to behave as documented.",
+    ref="DESIGN.md 2 C15"),
  "C01": dict(cat="other", tech="AST table extraction + finite-domain evaluation: per-tag payload tables of 7 sibling codec functions vs the OSC 1.0 table, big-endian shift sequences, alignment-step tables over pos mod 4, cursor-offset discipline, va_arg/union-member agreement, argument-slot discipline of rtosc_avmessage against rtosc_amessage's over all tag sequences up to length 3",
     text="Decides structural necessary conditions of the wire format for every input: each of the seven hand-written functions that carry a private copy of the type-tag table assigns every tag its OSC 1.0 payload class; every numeric emit/extract sequence is big-endian on consecutive bytes; every alignment step computes the table of its field kind (evaluated over pos mod 4, not matched textually); type-string loops classify the element they tested and skip exactly '[' and ']'; rtosc_v2args reads the promoted C type into the union member the writer reads; the wrappers share one decoder/forward buffers unchanged. It does not decide the bytes for particular values - that part of the property quantifies over run-time values.",
     note="Trusted: clang AST, sa/fdeval.py, idiom recognisers in sa/rules/codec.py (an unknown idiom is exit 2, not a pass), the OSC tag table in sa/props/C01.py.",
@@ -76,7 +80,6 @@ CLAIMS = {
     ref="DESIGN.md 2 C03"),
 }
 NA = {
- "C15": "undo history: position/size bookkeeping over operation histories and a wall-clock merge window; no clause is a code shape (the /undo_change event format is decided on the producer side by C14 R14d)",
  "C18": "collapsePath / apropos / path_search correctness lives in run-time index and string values (in-place pointer arithmetic, recursive partial matching, sort-and-filter over pairs); no structural necessary condition could be named without freezing a code fragment",
  "C20": "which controller drives which callback is a function of the whole map/unmap/CC history over immutable snapshots rebuilt per step; no clause is visible in the code's shape",
 }
